@@ -10,6 +10,9 @@ REPLAY = os.path.join(VERIF, 'replay')
 # batteries per property: list of argv lists (cheap first)
 BATTERIES = {
     'C17': [['arena', '5']],
+    'C12': [['customs']],
+    'C14': [['config']],
+    'C08': [['emit-twice'], ['customs']],
     'C04': [['entities']],
     'C19': [['entities']],
     'C16': [['visit'], ['visit-cf', '4', '3'], ['visit-deep', '100000']],
